@@ -14,7 +14,7 @@ for k in sorted(R):
     out.append(f"| {k} | {m.get('breaks_property', k[:3])} | {m.get('needs_to_manifest','')} | {r['first']} | {r['now']} | {r['strengthened']} |")
 first_missed = [k for k in R if R[k]['first'].startswith('MISSED')]
 nfif = [k for k in R if R[k]['first'].startswith('no-failing')]
-now_missed = [k for k in R if R[k]['now'].startswith('MISSED') or R[k]['now'].startswith('pending')]
+now_missed = [k for k in R if R[k]["now"].startswith("MISSED") or R[k]["now"].startswith("pending")]
 import re
 cross = [k for k in R if re.search(r'caught by (the )?C\d\d', R[k]['now']) and not R[k]['now'].startswith('caught (')]
 out += ["", f"First run: {len(R)-len(first_missed)-len(nfif)} of {len(R)} reported with a failing input, {len(nfif)} as no-failing-input-found, {len(first_missed)} missed ({', '.join(sorted(first_missed))}).",
